@@ -17,6 +17,7 @@ type Group struct {
 	Wire  []WireCase        `json:"wire"`
 	Conc  *ConcurrentConfig `json:"conc"`
 	Tag   string            `json:"tag"`
+	Base  string            `json:"base"` // base URL path of the spec (normal form), for the client
 }
 
 // Main is called by the generated main.go of a scratch module: driver <jobs.json> <events.ndjson>
